@@ -18,20 +18,26 @@ for sid in ids:
         print(f"{sid}: DOES NOT APPLY to {head}"); meta["applies_to"] = None
         json.dump(meta, open(f"{d}/meta.json","w"), indent=1); continue
     det = []
-    for chk in RELATED.get(prop, [prop]):
-        r = sh(f"/verif/tools/muttest.sh {d}/patch.diff {chk}")
-        m = re.search(r"exit=(\d+)", r.stdout)
-        rc = int(m.group(1)) if m else -1
-        viol = "VIOLATION" in r.stdout
-        msg = ""
-        for line in r.stdout.splitlines():
-            if line.startswith("  ") and "sub-check" not in line:
-                msg = line.strip()[:200]; break
-        print(f"{sid}: {chk} exit={rc} violation={viol} {msg}")
-        if rc == 1 and viol:
-            det.append({"check": chk, "tier": "quick", "first_message": msg})
-            if chk == prop: break
+    sh(f"git -C /repo apply {d}/patch.diff")
+    try:
+        for chk in RELATED.get(prop, [prop]):
+            r = sh(f"cd /verif && timeout 1200 ./vcheck {chk} quick 2>&1")
+            out = r.stdout
+            rc = r.returncode
+            viol = "VIOLATION" in out
+            msg = ""
+            lines = out.splitlines()
+            for i, line in enumerate(lines):
+                if line.startswith("  sub-check") and i + 1 < len(lines):
+                    msg = lines[i + 1].strip()[:200]; break
+            print(f"{sid}: {chk} exit={rc} violation={viol} {msg}", flush=True)
+            sh(f"rm -f /verif/replays/{chk}-*.json")
+            if rc == 1 and viol:
+                det.append({"check": chk, "tier": "quick", "first_message": msg})
+    finally:
+        sh("git -C /repo checkout -- .")
     meta["applies_to"] = head
     meta["detected_by"] = det
     json.dump(meta, open(f"{d}/meta.json","w"), indent=1)
 sh("git -C /repo checkout -- .")
+sh("cd /verif && ./vcheck --setup")
